@@ -71,6 +71,15 @@ PROPS = {
         trusted=COMMON_TRUST + ["verif entry points in peer/ (add-only)", "rate limiter and Pieces.ReadAt are oracles"],
         assumptions=[],
     ),
+    "C12": dict(
+        level_text="Model/Metadata.v models metadataVote/Guess, resizeMetadata, requestMetadata and gotMetadata followed by MetadataComplete, with SHA-1 as a universally quantified function. Theorems for every history of votes, requests and blocks from any mix of peers: c12_authentic (usable only with a dictionary whose digest equals the info-hash and that MetadataComplete validated) and c12_total (no event panics: slice bounds and division by zero unreachable). Tie: 200 (quick) histories on a magnet-created tor.Torrent driven through the real handleEvent (TorPeerExtended, TorMetaData) and requestMetadata; buffer length, blocks present, slot count, votes, completion and the published Info compared after every step; monitor: never a panic, complete only with the authentic dictionary.",
+        level_note="Liveness clause (completes after honest blocks for every index) is exercised by the harness (every history ends with an honest round) but not proved; known finding C12-forged-block-holds-index: an honest block arriving while a forged block occupies its index is ignored, so completion needs a further round after the mismatch reset. For execution SHA-1 is instantiated by the indicator of the authentic dictionary (collision-freeness of generated contents assumed). Size-vote ties are resolved by an oracle checked to be an argmax.",
+        harness="metadata", args=["-prop", "C12"], check_module="MetadataCheck",
+        n_quick=200, n_thorough=4000,
+        trusted=COMMON_TRUST + ["verif hooks tor/export_verif.go (VerifInit, VerifHandleEvent, VerifRequestMetadata, VerifMetadataState)",
+                                "gotMetadata's error is recovered from the torrent's log output"],
+        assumptions=["SHA-1 of distinct generated metadata contents are distinct"],
+    ),
 }
 
 # properties not claimed, each with a reason (kept current as checks are added)
